@@ -626,29 +626,18 @@ def propertyPlan (f : FieldD) :
 /-- one field of `messageProperties`: the property and what `buildSchema` asked for -/
 def buildProperty (ds : DescSet) (reg : Reg) (f : FieldD) : Outcome (RProp × Built) :=
   (propertyPlan f).bind fun (kind, target, ext, key, mk) =>
-    (buildSchema ds reg kind target ext key).bind fun b =>
-      -- `if _, isAny := fieldSchema.(*AnyField); isAny` in the list and map branches: j5reflect and
-      -- the codec have no array / map of Any
-      if f.card != .single && b.schema == .any then .err "arrays / maps of Any are not supported"
-      else .ok (mk b.schema, b)
+    (buildSchema ds reg kind target ext key).map fun b => (mk b.schema, b)
 
 /-- what a successful `buildProperty` went through -/
 theorem buildProperty_ok {ds : DescSet} {reg : Reg} {f : FieldD} {prop : RProp} {b : Built}
     (h : buildProperty ds reg f = .ok (prop, b)) :
     ∃ kind target ext key mk, propertyPlan f = .ok (kind, target, ext, key, mk) ∧
-      buildSchema ds reg kind target ext key = .ok b ∧ prop = mk b.schema ∧
-      (f.card ≠ .single → b.schema ≠ .any) := by
+      buildSchema ds reg kind target ext key = .ok b ∧ prop = mk b.schema := by
   unfold buildProperty at h
   obtain ⟨⟨kind, target, ext, key, mk⟩, hplan, h2⟩ := bind_eq_ok h
-  obtain ⟨b', hb, h3⟩ := bind_eq_ok h2
-  split at h3
-  · cases h3
-  · rename_i hc
-    cases h3
-    refine ⟨kind, target, ext, key, mk, hplan, hb, rfl, ?_⟩
-    intro hcard hany
-    apply hc
-    simp [hcard, hany]
+  obtain ⟨b', hb, h3⟩ := map_eq_ok h2
+  cases h3
+  exact ⟨kind, target, ext, key, mk, hplan, hb, rfl⟩
 
 /-! ## the stack machine -/
 
@@ -935,7 +924,7 @@ theorem buildSchema_push (ds : DescSet) (reg : Reg) (kind : PKind) (target : Tar
 theorem buildProperty_push (ds : DescSet) (reg : Reg) (f : FieldD) (prop : RProp) (b : Built)
     (m : Msg) (h : buildProperty ds reg f = .ok (prop, b)) (hp : b.push = some m) :
     m ∈ ds.msgs ∧ reg.has m.pkg m.split = false ∧ (reg.applyAll b.ops).has m.pkg m.split = true := by
-  obtain ⟨kind, target, ext, key, mk, _, hb', _, _⟩ := buildProperty_ok h
+  obtain ⟨kind, target, ext, key, mk, _, hb', _⟩ := buildProperty_ok h
   exact buildSchema_push ds reg kind target ext key b m hb' hp
 
 theorem place_rest (fr : Frame) (f : FieldD) (prop : RProp) : (place fr f prop).rest = fr.rest := by
@@ -1005,6 +994,101 @@ def run (ds : DescSet) (st : St) : Outcome Reg :=
   | .cont st' => run ds st'
 termination_by (unregistered ds st.reg, work st.stack)
 decreasing_by exact step_decreases ds st st' h
+
+/-! ## ClientProperties (`lib/j5schema/root_schema.go`, after 595283b)
+
+Flattened object fields are replaced by the client properties of their object, paths
+concatenated, **unless** the object is already being flattened (the guard that ended the infinite
+recursion). Defined by well-founded recursion on (registered names not on the flattening stack,
+properties left). -/
+
+/-- `ObjectField.Schema()`: `s.Ref.To.(*ObjectSchema)` -/
+def objectProps (reg : Reg) (r : Ref) : Outcome (List RProp) :=
+  match reg.find r.pkg r.schema with
+  | some e =>
+    match e.to with
+    | some (.object _ _ _ _ ps) => .ok ps
+    | some _ => .panic "interface conversion: RootSchema is not *ObjectSchema"
+    | none => .panic "interface conversion: RootSchema is nil, not *ObjectSchema"
+  | none => .panic "unregistered reference"
+
+def onStack (fl : List Ref) (r : Ref) : Bool := fl.contains r
+
+/-- registered names not on the flattening stack -/
+def unflattened (reg : Reg) (fl : List Ref) : Nat :=
+  (reg.filter fun e => !onStack fl ⟨e.pkg, e.key⟩).length
+
+theorem unflattened_lt (reg : Reg) (fl : List Ref) (r : Ref) (e : REntry)
+    (hf : reg.find r.pkg r.schema = some e) (hn : onStack fl r = false) :
+    unflattened reg (fl ++ [r]) < unflattened reg fl := by
+  unfold unflattened
+  have hpk : e.pkg = r.pkg ∧ e.key = r.schema := by
+    have h := hf
+    unfold Reg.find at h
+    simpa using List.find?_some h
+  obtain ⟨hp, hk⟩ := hpk
+  have hmem : e ∈ reg := by
+    unfold Reg.find at hf
+    exact List.mem_of_find?_eq_some hf
+  have he : (⟨e.pkg, e.key⟩ : Ref) = r := by cases r; simp_all
+  apply filter_length_lt _ _ _ _ e hmem
+  · simp [he, hn]
+  · simp [onStack, he]
+  · intro x hx
+    simp only [onStack, List.contains_append, Bool.not_or, Bool.and_eq_true, Bool.not_eq_eq_eq_not,
+      Bool.not_true] at hx ⊢
+    exact hx.1
+
+/-- `nestedClone`: the child's path is appended to the flattened field's path -/
+def nestedClone (inParent : List Int) (p : RProp) : RProp := { p with path := inParent ++ p.path }
+
+/-- `clientProperties(flattening)` over the properties of the object on top of the stack `fl` -/
+def clientProps (reg : Reg) (fl : List Ref) (props : List RProp) : Outcome (List RProp) :=
+  match props with
+  | [] => .ok []
+  | prop :: rest =>
+    let here : Outcome (List RProp) :=
+      match prop.schema with
+      | .object ref true =>
+        if hs : onStack fl ref then .ok [prop]
+        else
+          match hf : reg.find ref.pkg ref.schema with
+          | none => .panic "unregistered reference"
+          | some e =>
+            match e.to with
+            | some (.object _ _ _ _ ps) =>
+              (clientProps reg (fl ++ [ref]) ps).map fun cs => cs.map (nestedClone prop.path)
+            | some _ => .panic "interface conversion: RootSchema is not *ObjectSchema"
+            | none => .panic "interface conversion: RootSchema is nil, not *ObjectSchema"
+      | _ => .ok [prop]
+    here.bind fun a => (clientProps reg fl rest).map fun b => a ++ b
+termination_by (unflattened reg fl, props.length)
+decreasing_by
+  · apply Prod.Lex.left
+    exact unflattened_lt reg fl ref e hf (by simpa using hs)
+  · apply Prod.Lex.right
+    simp
+
+/-- `ObjectSchema.ClientProperties()` of the object registered under `self` -/
+def clientProperties (reg : Reg) (self : Ref) : Outcome (List RProp) :=
+  (objectProps reg self).bind fun ps => clientProps reg [self] ps
+
+/-- an object's client properties (its own and those its flattened fields bring) have pairwise
+distinct JSON names. The reader does **not** check this (open finding
+`duplicate-client-property-name`; the repair `assertUniqueClientPropertyNames` — this very check
+after every build — is written down in notes/schema.md but not applied: the j5s compiler accepts
+such packages, see there); it is the hypothesis of `C18_codec_ok`. -/
+def clientNamesOK (reg : Reg) (e : REntry) : Outcome Unit :=
+  match e.to with
+  | some (.object _ _ _ _ ps) =>
+    (clientProps reg [⟨e.pkg, e.key⟩] ps).bind fun cps =>
+      if namesUnique cps then .ok () else .err "duplicate property name"
+  | _ => .ok ()
+
+/-- the same over a list of entries -/
+def clientNamesAll (reg : Reg) : List REntry → Outcome Unit
+  | [] => .ok ()
+  | e :: es => (clientNamesOK reg e).bind fun _ => clientNamesAll reg es
 
 /-! ## entry points -/
 
